@@ -100,5 +100,5 @@ sites!(
     MM_FREE_ENTRY, MM_FREE_QUEUED, MM_TRYFREE_TOKEN, MM_DEALLOC, MM_EPOCH_BUMP,
     MM_UPDATE_TOKEN, MM_REMOVE_TOKEN,
     BW_BEFORE_LOCK, BW_CHECKED_FALSE, BW_WOKEN, BW_NOTIFY_BEFORE_LOCK, BW_NOTIFY_LOCKED,
-    AS_LOADED, RR_LOADED,
+    AS_LOADED, RR_LOADED, R_ATTEMPT,
 );
